@@ -331,6 +331,12 @@ def expand(hist, scen, fam, aggs, salt, remote_restart, prof=""):
             need(a["d"])
         if op == "predict":
             a.setdefault("agg", "None")
+        if op == "new" and scen != "warm":
+            # a decoy: right after a model object is constructed, OTHER settings and model objects (other calendar maps, uncertainty
+            # level, supplemental columns) are built and thrown away - what a model does later is governed by its own settings
+            out.append(a)
+            out.append({"op": "other", "k": "settings"})
+            continue
         if op == "load" and fam in ("daily", "billing"):
             # daily / billing: C01 demands the prediction that the documented formula gives "from the JSON parameters alone" - parameters are
             # named members, and a JSON object is unordered: the document may come back with its members in another order (a key-sorting
